@@ -155,8 +155,10 @@ class WBSlave:
 class WBProtocolMonitor:
     """Checks on one port, every cycle: the master-side outputs of a DUT are held until ack|err
     (cyc/stb/adr/we/sel/dat_w stable), stb only inside cyc; counts ack pulses."""
-    def __init__(self, bus, name, check_hold=True):
+    def __init__(self, bus, name, check_hold=True, reads_select_all=False):
         self.bus, self.name, self.check_hold = bus, name, check_hold
+        self.reads_select_all = reads_select_all      # the DUT translates reads that have no byte enables (AXI / AXI-Lite / AHB word reads)
+        self.read_cycles = 0
         self.prev = None
         self.viol = []
         self.acks = 0
@@ -176,6 +178,10 @@ class WBProtocolMonitor:
         cur = (v[b.adr], v[b.we], v[b.sel], umask(b.dat_w, v[b.dat_w]) if v[b.we] else 0)
         if stb and not cyc:
             self.viol.append({"cycle": c, "kind": "stb-without-cyc"})
+        if self.reads_select_all and cyc and stb and not v[b.we]:
+            self.read_cycles += 1
+            if v[b.sel] != (1 << len(b.sel)) - 1 and not any(x["kind"] == "read-cycle-does-not-select-all-bytes" for x in self.viol):
+                self.viol.append({"cycle": c, "kind": "read-cycle-does-not-select-all-bytes", "sel": v[b.sel]})
         if (ack or err) and not (cyc and stb):
             # look-ahead acknowledge of a registered-feedback burst falling into a master wait state: see WBMaster
             if ack and not err and cyc and self.last_ack == (c - 1, CTI_INCR):
